@@ -133,3 +133,54 @@ Fixpoint run_wire {A : Type} (p : prog A) (w : wire) : option (wire * outcome A)
       | Some (w', WRep r) => run_wire (k r) w'
       end
   end.
+
+(* ---------- the same wire over byte streams that fragment and get interrupted ---------- *)
+(* For one bus call of the controller, how each of the four stream uses behaves: the controller's write,
+   the bridge's read, the bridge's write of the reply, the controller's read of the reply. *)
+Record wsched : Type := {
+  ws_cw : list wr_ev; ws_br : list rd_ev; ws_bw : list wr_ev; ws_cr : list rd_ev
+}.
+Definition no_sched : wsched := {| ws_cw := []; ws_br := []; ws_bw := []; ws_cr := [] |}.
+
+(* One bus call over the wire with those schedules.  A failing write on the controller's side is the
+   serial bus returning Err before anything reaches the bridge. *)
+Definition wire_step_s (w : wire) (m : msg) (s : wsched) : option (wire * wire_reply) :=
+  match frame_write (frame_of_msg m) {| w_out := []; w_sched := ws_cw s |} with
+  | None => None
+  | Some (Err _, _) => Some (w, WErr)
+  | Some (Ok _, cw) =>
+      match odk_process {| pt_in := {| r_content := w_out cw; r_sched := ws_br s |};
+                           pt_out := {| w_out := []; w_sched := ws_bw s |} |} (wr_bus w) with
+      | None => None
+      | Some (res, op, b', _) =>
+          match res with
+          | Err OPanic => Some (w, WPanic)
+          | _ =>
+              let inbox := wr_inbox w ++ w_out (pt_out op) in
+              if response_expected m then
+                match frame_read {| r_content := inbox; r_sched := ws_cr s |} with
+                | None => None
+                | Some (Err _, r') => Some ({| wr_bus := b'; wr_inbox := r_content r' |}, WErr)
+                | Some (Ok f, r') =>
+                    Some ({| wr_bus := b'; wr_inbox := r_content r' |}, WRep (Some (msg_of_frame f)))
+                end
+              else Some ({| wr_bus := b'; wr_inbox := inbox |}, WRep None)
+          end
+      end
+  end.
+
+(* A controller program over the wire, the i-th bus call using the i-th schedule (none once they run out). *)
+Fixpoint run_wire_s {A : Type} (p : prog A) (w : wire) (ss : list wsched) : option (wire * outcome A) :=
+  match p with
+  | Ret a => Some (w, Done a)
+  | Fail => Some (w, ProtoErr)
+  | Crash => Some (w, Crashed)
+  | Send m k =>
+      let s := match ss with [] => no_sched | s :: _ => s end in
+      match wire_step_s w m s with
+      | None => None
+      | Some (w', WErr) => Some (w', BusFailed)
+      | Some (w', WPanic) => Some (w', Crashed)
+      | Some (w', WRep r) => run_wire_s (k r) w' (tl ss)
+      end
+  end.
